@@ -36,6 +36,7 @@ func runC09(c *Ctx) {
 	c.shared("R17", "C19/R4", "assigning to a variable changes that variable: a name bound by a pattern that did not match is not left bound (it would shadow the outer variable of that name and alias an element of the subject, into which the assignment then writes)", keyHas("bindings-are-a-result", "bindings-per-alternative"), runC19)
 	c.shared("R16", "C16/R3", "scalars are copied on insertion into containers: pluck stores a cell of its own per key (a copy of the member's value, or null), never the source object's cell", keyHas("pluck"), runC16)
 	c.shared("R18", "C04/R15", "an assignment over a null of the input changes that one place: every null of a decoded document has a cell of its own (one shared cell for all decoded nulls changes them all, in this document and in the ones read later)", keyHas("value-construction"), func(s *Ctx) { newValueTable(s, "R15") })
+	c.shared("R19", "C08/R1", "an assignment reaches the variable the program names: every frame pushed for a match arm is popped however the arm is left — a frame left behind by next / break / return keeps its bindings (cells of an earlier record) in front of the variables of the same name", keyHas("balance "), func(s *Ctx) { c08R1(s, discoverFrameModel(s.P)) })
 	c.shared("R14", "C14/R4", "an assignment through `$` changes the root it was made through only: every selector's root is the result of evaluating that selector on a conversion of the input value made for it (not on a tree another selector's rules have already assigned into)", keyHas("root-list-contents"), func(s *Ctx) { rootsPerValue(s, "R4") })
 	c.shared("R12", "C10/R6", "an index assignment changes exactly the addressed location: every evaluation of a literal builds cells of its own — nothing evaluated earlier is remembered in the evaluator or in the syntax tree and handed out again", keyHas("evaluator-state", "syntax-tree-store", "interpreter-state"), func(s *Ctx) { interpreterState(s, "R6") })
 	c.shared("R11", "C08/R4", "assigning to a parameter changes the callee's own cell only: every declared parameter — supplied or not — is bound to a fresh cell in the callee's frame, so the name cannot resolve to a variable of a calling frame", nil, c08R4)
@@ -512,6 +513,38 @@ func c09R6(c *Ctx) {
 					}
 				}
 			}
+		}
+		// … and what it finds is the place itself, not a copy of the value standing there: the assignment
+		// that follows writes through the result (SetMember on a copied array header appends to a slice
+		// nobody else sees)
+		var isCopy func(v ssa.Value, seen map[ssa.Value]bool) bool
+		isCopy = func(v ssa.Value, seen map[ssa.Value]bool) bool {
+			if seen[v] {
+				return false
+			}
+			seen[v] = true
+			switch x := v.(type) {
+			case *ssa.Alloc:
+				return true
+			case *ssa.FieldAddr:
+				return isCopy(x.X, seen)
+			case *ssa.Phi:
+				for _, e := range x.Edges {
+					if isCopy(e, seen) {
+						return true
+					}
+				}
+			}
+			return false
+		}
+		nPlace := 0
+		for _, r := range returnsOf(g) {
+			res := effectiveResults(r)
+			if len(res) == 0 || isNilConst(res[0]) {
+				continue
+			}
+			nPlace++
+			c.check(!isCopy(res[0], map[ssa.Value]bool{}), "R6", fmt.Sprintf("parent-relook-yields-the-place #%d", nPlace), p.InstrPos(r), "the fresh look returns the address of the value in its container", "the fresh look ("+shortName(g)+") returns the address of a local copy of the value it found: the member that the pending assignment then adds goes into the copy (for an array: into a slice header of its own) and is lost")
 		}
 		c.check(climbs, "R6", "parent-relook-climbs", p.Pos(g.Pos()), "the fresh look at a pending parent recurses where that parent's own parent is pending", "the fresh look ("+shortName(g)+") resolves one level only: when the pending parent's own parent is pending too, it finds nothing and the chain is created again — `o.a.b.x = o.a.b.y = 1` loses y")
 	}
